@@ -8,6 +8,7 @@ CONSTANTS
   SpellNames = {}
   EmitTrees = FALSE
   Alpha = "S"
+  Contexts = {}
   MaxLen = 3
   TailLen = 0
   DeepReps = {1000, 3000000}
